@@ -185,6 +185,7 @@ INVARIANT ImplExact
 INVARIANT ImplWeight
 INVARIANT ImplRange
 INVARIANT ImplMonotone
+INVARIANT ImplPointwise
 INVARIANT ImplAgree
 INVARIANT ConformsMachine
 INVARIANT InvSortContract
@@ -227,6 +228,7 @@ def report(ctx, res, prefix, cls, describe, varname):
 
 
 def step_b(ctx, K):
+    from harness.c11_steps import reorder
     values, omegas = value_sets(ctx)[0]
     rng = np.random.default_rng(ctx.seed)
     tuples = list(itertools.product(values, repeat=4))
@@ -242,6 +244,9 @@ def step_b(ctx, K):
                 ws = [w for w in omegas if (w not in vt)] if cls == "offtie" else list(omegas)
                 if cls == "tie" and not any(w in vt for w in ws):
                     continue
+                # the frequency list in ascending / descending / shuffled / repeated order: the vectorised
+                # kernel (CA) gets the list as it is, C and Py are called point by point
+                ws = reorder(ws, it + (fn == "J"), rng)
                 vals = dict(C=[K.weight_c(vt, x, fn) for x in ws], CA=list(K.weights_ca(vt, ws, fn)),
                             Py=[K.weight_py(vt, x, fn) for x in ws])
                 val, exact = {}, {}
@@ -257,7 +262,7 @@ def step_b(ctx, K):
     if ctx.quick:
         tuples2 = [tuples2[i] for i in sorted(rng.choice(len(tuples2), 48, replace=False))]
     for vt in tuples2:
-        ws = [w for w in omegas2 if w not in vt]
+        ws = reorder([w for w in omegas2 if w not in vt], len(events), rng)
         for fn in ("I", "J"):
             vals = dict(C=[K.weight_c(vt, x, fn) for x in ws], CA=list(K.weights_ca(vt, ws, fn)),
                         Py=[K.weight_py(vt, x, fn) for x in ws])
